@@ -2,11 +2,22 @@ package blockchain
 
 // C33 (height announcements): the peer list that the p2p module assembles from the peers' own "peer info" replies
 // (protocol/peer: queryPeerInfo decodes a types.Peer from the remote stream; PeerInfoManager stores it unchanged;
-// handleEventPeerInfo hands the stored values to the blockchain module) is consumed by BlockChain.FetchPeerList, which
-// SynRoutine starts every few seconds as a bare goroutine ("go chain.FetchPeerList()", no recover): a panic there
-// kills the node.  The harness runs FetchPeerList inside a guard against a scripted p2p module whose EventPeerInfo reply
-// carries peer entries that went through the wire encoding (so e.g. a missing header arrives as a nil pointer, exactly
-// as it does from a real peer).  Afterwards a well-formed peer list must still be taken over.
+// handleEventPeerInfo hands the stored values to the blockchain module) is taken over by BlockChain.FetchPeerList and
+// then READ by the synchronisation goroutines.  None of them has a recover:
+//
+//   producer   SynRoutine: "go chain.FetchPeerList()" -> fetchPeerList (-> the first CheckBestChain)
+//   consumers  SynRoutine: "go chain.SynBlocksFromPeers()", "go chain.CheckTipBlockHash()", "go chain.CheckBestChain(false)";
+//              ReadBlockToExec / FastDownLoadBlocks / ChunkRecordSync / block finalizer goroutines, which call
+//              GetPeerMaxBlkHeight, GetMaxPeerInfo, GetPeerInfo, getForkComparePeer, getActivePeersByHeight, GetPeerCount,
+//              GetPeers, GetPeersMap, IsCaughtUp, GetBestChainPids, RecordFaultPeer
+//
+// A case = local chain height x peer list (entries went through the wire encoding, so a missing header is a nil
+// pointer exactly as from a real peer) x which of the announced peers are recorded as faulty.  The harness runs the
+// producer and then EVERY consumer inside a guard; a panic reaching the guard would have killed the node.  Afterwards
+// a well-formed peer list must be taken over and the consumers must answer from it.
+// The BlockChain is the one blockchain.New builds (tasks, maps, config) on a real queue and an empty in-memory block
+// store; the local height is set through BlockStore.UpdateHeight2 and a one-node best-chain view; the p2p module is a
+// responder that answers EventPeerInfo with the case's list and everything else (header requests) with an ok reply.
 
 import (
 	"fmt"
@@ -14,6 +25,7 @@ import (
 	"sync"
 	"testing"
 
+	dbm "github.com/33cn/chain33/common/db"
 	"github.com/33cn/chain33/common/log/log15"
 	"github.com/33cn/chain33/queue"
 	"github.com/33cn/chain33/types"
@@ -29,10 +41,12 @@ type c33Peer struct {
 	NoHeader  bool   `json:"noHeader,omitempty"`
 	Height    int64  `json:"height,omitempty"`
 	Finalized bool   `json:"finalized,omitempty"`
+	Faulty    bool   `json:"faulty,omitempty"` // after the list is taken over a block of this peer is recorded as faulty
 }
 
 type c33PeerListCase struct {
 	Local int64     `json:"localHeight"`
+	First bool      `json:"firstFetch"` // the node has not run its first best-chain check yet
 	Peers []c33Peer `json:"peers"`
 }
 
@@ -65,14 +79,37 @@ func c33PLGet() *c33PLFix {
 					l := f.list
 					f.mu.Unlock()
 					msg.Reply(p2p.NewMessage("blockchain", types.EventPeerList, l))
+				} else {
+					msg.Reply(p2p.NewMessage("blockchain", types.EventReply, &types.Reply{IsOk: true}))
 				}
 			}
 		}()
-		// the fields fetchPeerList touches; firstcheckbestchain=1 keeps it from starting the best-chain probe
-		f.chain = &BlockChain{client: q.Client(), blockStore: &BlockStore{}, tickerwg: &sync.WaitGroup{}, firstcheckbestchain: 1}
+		f.chain = New(cfg)
+		f.chain.client = q.Client()
+		f.chain.blockStore = NewBlockStore(f.chain, dbm.NewDB("c33-peerlist", "memdb", "", 0), f.chain.client)
 		c33PL = f
 	})
 	return c33PL
+}
+
+// reset gives the chain the local height of the case and forgets what earlier cases left in the peer bookkeeping.
+func (f *c33PLFix) reset(local int64, first bool) {
+	c := f.chain
+	c.blockStore.UpdateHeight2(local)
+	c.bestChain = newChainView(&blockNode{height: local, hash: []byte(fmt.Sprint("tip-", local))})
+	c.peerMaxBlklock.Lock()
+	c.peerList = nil
+	c.peerMaxBlklock.Unlock()
+	c.faultpeerlock.Lock()
+	c.faultPeerList = make(map[string]*FaultPeerInfo)
+	c.faultpeerlock.Unlock()
+	c.bestpeerlock.Lock()
+	c.bestChainPeerList = make(map[string]*BestPeerInfo)
+	c.bestpeerlock.Unlock()
+	c.firstcheckbestchain = 1
+	if first {
+		c.firstcheckbestchain = 0
+	}
 }
 
 func c33WirePeer(p c33Peer) *types.Peer {
@@ -90,70 +127,149 @@ func c33WirePeer(p c33Peer) *types.Peer {
 	return &wire
 }
 
-func (f *c33PLFix) fetch(t lib.TB, test string, c c33PeerListCase, peers []c33Peer, local int64) {
+type c33PLRun struct {
+	t    lib.TB
+	test string
+	c    c33PeerListCase
+	f    *c33PLFix
+}
+
+func (r *c33PLRun) guard(path string, nilHeader bool, fn func()) {
+	defer func() {
+		e := recover()
+		if e == nil {
+			return
+		}
+		if nilHeader && lib.Known(c33KnownNilHeader) && strings.Contains(fmt.Sprint(e), "nil pointer dereference") {
+			lib.ExcludedKnown(c33KnownNilHeader)
+			return
+		}
+		lib.Violation(r.t, "C33", r.test, r.c, "panic escaped %s, which the synchronisation goroutines run without a recover (the node would die): %v", path, e)
+	}()
+	fn()
+}
+
+// feed = one FetchPeerList tick on the given announcements.
+func (r *c33PLRun) feed(peers []c33Peer) {
 	l := &types.PeerList{}
 	nilHeader := false
 	for _, p := range peers {
 		l.Peers = append(l.Peers, c33WirePeer(p))
 		nilHeader = nilHeader || p.NoHeader
 	}
-	f.mu.Lock()
-	f.list = l
-	f.mu.Unlock()
-	f.chain.blockStore.height = local
-	f.chain.tickerwg.Add(1) // as SynRoutine does before "go chain.FetchPeerList()"
-	func() {
-		defer func() {
-			r := recover()
-			if r == nil {
-				return
-			}
-			if nilHeader && lib.Known(c33KnownNilHeader) && strings.Contains(fmt.Sprint(r), "nil pointer dereference") {
-				lib.ExcludedKnown(c33KnownNilHeader)
-				return
-			}
-			lib.Violation(t, "C33", test, c, "panic escaped BlockChain.FetchPeerList, which SynRoutine starts as a goroutine without a recover (the node would die): %v", r)
-		}()
-		f.chain.FetchPeerList()
-	}()
+	r.f.mu.Lock()
+	r.f.list = l
+	r.f.mu.Unlock()
+	r.f.chain.tickerwg.Add(1) // as SynRoutine does before "go chain.FetchPeerList()"
+	r.guard("BlockChain.FetchPeerList", nilHeader, func() { r.f.chain.FetchPeerList() })
+}
+
+// consumers runs every reader of what fetchPeerList stored, as the synchronisation goroutines do.
+func (r *c33PLRun) consumers(peers []c33Peer) {
+	c := r.f.chain
+	g := func(path string, fn func()) { r.guard(path, false, fn) }
+	g("GetPeerMaxBlkHeight", func() { c.GetPeerMaxBlkHeight() })
+	g("GetMaxPeerInfo", func() { c.GetMaxPeerInfo() })
+	g("getForkComparePeer", func() { c.getForkComparePeer() })
+	g("GetPeerCount / GetPeers / GetPeersMap", func() { c.GetPeerCount(); c.GetPeers(); c.GetPeersMap() })
+	g("IsCaughtUp", func() { c.IsCaughtUp() })
+	g("GetBestChainPids", func() { c.GetBestChainPids() })
+	for _, h := range []int64{r.c.Local, r.c.Local + 1, 0, -1} {
+		g("getActivePeersByHeight", func() { c.getActivePeersByHeight(h) })
+	}
+	for _, p := range peers {
+		g("GetPeerInfo", func() { c.GetPeerInfo(p.Name) })
+	}
+	g("SynBlocksFromPeers", func() { c.SynBlocksFromPeers() })
+	c.tickerwg.Add(1)
+	g("CheckTipBlockHash", func() { c.CheckTipBlockHash() })
+	c.tickerwg.Add(1)
+	g("CheckBestChain", func() { c.CheckBestChain(false) })
 }
 
 func c33RunPeerList(t lib.TB, test string, c c33PeerListCase) {
 	f := c33PLGet()
-	f.fetch(t, test, c, c.Peers, c.Local)
-	// a well-formed announcement afterwards is still taken over
+	f.reset(c.Local, c.First)
+	r := &c33PLRun{t: t, test: test, c: c, f: f}
+	r.feed(c.Peers)
+	switch got := f.chain.GetPeers(); {
+	case got == nil:
+		lib.Class("stored_list_untouched_nil")
+	case len(got) == 0:
+		lib.Class("stored_list_empty")
+	default:
+		lib.Class("stored_list_nonempty")
+	}
+	r.consumers(c.Peers)
+	// blocks of some announced peers turn out faulty (ProcessBlock records that); the consumers then skip those peers
+	anyFaulty := false
+	for _, p := range c.Peers {
+		if p.Faulty {
+			anyFaulty = true
+			r.guard("RecordFaultPeer", false, func() { f.chain.RecordFaultPeer(p.Name, p.Height, []byte("bad"), types.ErrBlockHashNoMatch) })
+		}
+	}
+	if anyFaulty {
+		lib.Class("with_fault_peers")
+		r.consumers(c.Peers)
+	}
+	// a second tick with the same announcements (the list is replaced, not merged)
+	r.feed(c.Peers)
+	r.consumers(c.Peers)
+	// a well-formed announcement afterwards is taken over and the consumers answer from it
 	good := c33Peer{Name: "probe-peer", Height: c.Local + 10}
-	f.fetch(t, test, c, []c33Peer{good}, c.Local)
+	if c.Local > 1<<62 {
+		good.Height = c.Local
+	}
+	r.feed([]c33Peer{good})
+	r.consumers([]c33Peer{good})
 	got := f.chain.GetPeers()
 	if len(got) != 1 || got[0].Name != good.Name || got[0].Height != good.Height {
 		lib.Violation(t, "C33", test, c, "after the peers' announcements a well-formed peer list was not taken over (peer list now has %d entries)", len(got))
 	}
+	if h, m, p := f.chain.GetPeerMaxBlkHeight(), f.chain.GetMaxPeerInfo(), f.chain.GetPeerInfo(good.Name); h != good.Height || m == nil || m.Name != good.Name || p == nil || f.chain.GetPeerCount() != 1 {
+		lib.Violation(t, "C33", test, c, "after a well-formed peer list (one peer at height %d) the consumers do not answer from it: max height %d, max peer %v, peer info %v", good.Height, h, m, p)
+	}
 }
 
-// Non-trivial: at least one entry is not filtered out by name/self before its header is looked at (it is a remote
-// peer's entry) and the list mixes entries with and without a header or carries extreme heights.
+var c33PLNames = []string{"peerA", "peerB", "peerC", "", "16Uiu2HAm", strings.Repeat("n", 300)}
+
+// Non-trivial: at least one entry is a remote peer's entry (not filtered out as "self") and the list either mixes
+// entries with and without a header, carries extreme heights, or consists only of peers more than 128 blocks behind
+// the local height.
 func TestPropPeerListAnnouncements(t *testing.T) {
 	defer lib.Flush()
 	rapid.Check(t, func(t *rapid.T) {
-		c := c33PeerListCase{Local: rapid.SampledFrom([]int64{0, 1, 100, 1000, 1 << 40}).Draw(t, "local")}
+		c := c33PeerListCase{Local: rapid.SampledFrom([]int64{0, 1, 100, 128, 129, 130, 200, 1000, 1 << 40}).Draw(t, "local"),
+			First: rapid.IntRange(0, 3).Draw(t, "first") == 0}
 		n := rapid.IntRange(0, 4).Draw(t, "n")
-		remote, odd := false, false
+		shape := rapid.SampledFrom([]string{"mixed", "mixed", "allBehind", "around"}).Draw(t, "shape")
+		remote, odd, behind := false, false, n > 0
 		for i := 0; i < n; i++ {
-			p := c33Peer{Name: rapid.SampledFrom([]string{"peerA", "peerB", "", "16Uiu2HAm", strings.Repeat("n", 300)}).Draw(t, "name"),
-				Self:      rapid.IntRange(0, 4).Draw(t, "self") == 0,
-				NoHeader:  rapid.IntRange(0, 2).Draw(t, "noHeader") == 0,
-				Height:    rapid.SampledFrom([]int64{0, 1, 99, 100, 229, 1 << 40, -1, -1 << 63, 1<<63 - 1}).Draw(t, "height"),
-				Finalized: rapid.Bool().Draw(t, "finalized")}
+			p := c33Peer{Name: rapid.SampledFrom(c33PLNames).Draw(t, "name"),
+				Self:      rapid.IntRange(0, 5).Draw(t, "self") == 0,
+				Finalized: rapid.Bool().Draw(t, "finalized"), Faulty: rapid.IntRange(0, 2).Draw(t, "faulty") == 0}
+			switch shape {
+			case "allBehind": // every announced height is more than 128 below the local height (or absurdly negative)
+				p.Height = rapid.SampledFrom([]int64{c.Local - 129, c.Local - 130, c.Local - 1000, -129, -1 << 40, -1 << 63}).Draw(t, "height")
+			case "around": // around the 128-block window
+				p.Height = c.Local + rapid.SampledFrom([]int64{-130, -129, -128, -127, -1, 0, 1, 127, 128, 129}).Draw(t, "rel")
+			default:
+				p.NoHeader = rapid.IntRange(0, 2).Draw(t, "noHeader") == 0
+				p.Height = rapid.SampledFrom([]int64{0, 1, 99, 100, 229, 1 << 40, -1, -1 << 63, 1<<63 - 1}).Draw(t, "height")
+			}
 			c.Peers = append(c.Peers, p)
 			remote = remote || !p.Self
 			odd = odd || (!p.Self && (p.NoHeader || p.Height < 0 || p.Height > 1<<41))
+			behind = behind && (p.Self || p.NoHeader || p.Height < c.Local-128)
 		}
 		lib.Eval()
-		if remote && odd {
-			lib.Class("remote_entry_without_header_or_extreme_height")
+		lib.Class("shape_" + shape)
+		if remote && behind {
+			lib.Class("every_remote_peer_more_than_128_behind")
 		}
 		c33RunPeerList(t, "TestPropPeerListAnnouncements", c)
-		if remote && odd {
+		if remote && (odd || behind) {
 			lib.NonTrivialCase(c)
 		}
 	})
@@ -164,10 +280,10 @@ func TestKnown_FetchPeerListNilHeader(t *testing.T) {
 	defer lib.Flush()
 	f := c33PLGet()
 	c := c33PeerListCase{Local: 100, Peers: []c33Peer{{Name: "peerA", NoHeader: true}}}
+	f.reset(c.Local, false)
 	f.mu.Lock()
 	f.list = &types.PeerList{Peers: []*types.Peer{c33WirePeer(c.Peers[0])}}
 	f.mu.Unlock()
-	f.chain.blockStore.height = c.Local
 	f.chain.tickerwg.Add(1)
 	var pv interface{}
 	func() {
@@ -177,5 +293,18 @@ func TestKnown_FetchPeerListNilHeader(t *testing.T) {
 	if pv != nil {
 		lib.KnownOrViolation(t, "C33", "TestKnown_FetchPeerListNilHeader", c33KnownNilHeader, c,
 			fmt.Sprintf("BlockChain.fetchPeerList dereferences peer.Header of a peer-supplied entry without a nil check, in a goroutine without recover: %v", pv))
+	}
+}
+
+// Fixed regression: a node at height 200 whose only peers announce heights far below it, then the next sync tick.
+func TestRegress_C33PeerListAllBehind(t *testing.T) {
+	defer lib.Flush()
+	for _, c := range []c33PeerListCase{
+		{Local: 200, Peers: []c33Peer{{Name: "peerA", Height: 10}, {Name: "peerB", Height: 71}}},
+		{Local: 0, First: true, Peers: []c33Peer{{Name: "peerA", Height: -129}, {Name: "peerB", Height: -1 << 63, Faulty: true}}},
+		{Local: 130, Peers: []c33Peer{{Name: "peerA", Height: 1, Faulty: true}, {Name: "self", Self: true, Height: 130}}},
+	} {
+		lib.Eval()
+		c33RunPeerList(t, "TestRegress_C33PeerListAllBehind", c)
 	}
 }
